@@ -129,6 +129,9 @@ func concreteKey(v Value) (string, bool) {
 		if x.IsConst() {
 			return fmt.Sprintf("i%d", x.val), true
 		}
+		if x.op == OpRConst {
+			return "r" + x.rat.RatString(), true
+		}
 		return "", false
 	case StrV:
 		if x.sym == nil {
